@@ -2,7 +2,7 @@
 from __future__ import annotations
 
 import ast
-from typing import List
+from typing import Dict, List
 
 from ..core import AnalysisError, src
 from ..effects import Effects
@@ -23,6 +23,7 @@ TRUSTED = ['itertools.takewhile / count, more_itertools.unique_everseen, round s
            'the coverage clause (the fan reaches every cell) is declined']
 
 RT = 'gym_gridverse/utils/raytracing.py'
+TRACERS: Dict[str, bool] = {'compute_ray': True}
 COUNTS = ('itt.count()', 'itertools.count()', 'count()', 'itt.count(0)', 'itertools.count(0)')
 
 
@@ -236,7 +237,7 @@ def ray_sources(index: RepoIndex, fn) -> list:
                 elem(v, wk, params, depth - 1)
             return
         if isinstance(e, ast.Call) and isinstance(e.func, ast.Name):
-            if e.func.id == 'compute_ray':
+            if e.func.id in TRACERS:
                 kw = {k.arg: k.value for k in e.keywords}
                 a0 = e.args[0] if e.args else kw.get('position')
                 a1 = e.args[1] if len(e.args) > 1 else kw.get('area')
@@ -301,6 +302,41 @@ def ray_sources(index: RepoIndex, fn) -> list:
     if not out:
         raise AnalysisError(f'{fn.name}: no ray source found')
     return out
+
+
+def tracers(index: RepoIndex) -> Dict[str, bool]:
+    """name -> validates its origin: `compute_ray` (which rejects an origin outside the area)
+    and any module helper it returns the result of with the same (position, area) -- the part
+    of compute_ray after the check, which callers that have validated the origin once may call
+    directly (`_trace_ray`)"""
+    out = {'compute_ray': True}
+    f = index.func(RT, 'compute_ray')
+    ps = [a.arg for a in f.node.args.args[:2]]
+    for n in ast.walk(f.node):
+        if isinstance(n, ast.Return) and isinstance(n.value, ast.Call) and \
+                isinstance(n.value.func, ast.Name) and \
+                n.value.func.id in f.module.functions and \
+                [src(a) for a in n.value.args[:2]] == ps:
+            out[n.value.func.id] = False
+    return out
+
+
+def _origin_checked(index: RepoIndex, g, call: ast.Call) -> bool:
+    """in g (helpers read through), a `raise ValueError` guarded by `not
+    <area>.contains(<position>)` on the call's own two arguments comes before the call"""
+    from ..guards import show, strip_iter
+    from ..view import view as _view
+    if len(call.args) < 2:
+        return False
+    a0, a1 = src(call.args[0]), src(call.args[1])
+    w = _view(index, g)[1]
+    for e in w.events:
+        if e.kind == 'raise' and e.value is not None and \
+                src(e.value).startswith('ValueError(') and \
+                show(strip_iter(e.guard)).replace(' ', '') in (
+                    f'not({a1}.contains({a0}))',) and not e.loops:
+            return True
+    return False
 
 
 def fan_targets(index: RepoIndex, rep, rule: str) -> None:
@@ -425,7 +461,14 @@ def run(index: RepoIndex, rep) -> None:
     rep.rule('C19.R3', 'literal step 0 < step < 1 and unit direction at every call site',
              floor=4)
     rep.rule('C19.R4', 'ray functions are pure; cached results only read (C03.R4)', floor=3)
-    f = index.func(RT, 'compute_ray')
+    TRACERS.clear()
+    TRACERS.update(tracers(index))
+    f0 = index.func(RT, 'compute_ray')
+    # module helpers the body was split into (`_check_origin`, `_trace_ray`) are read through
+    from ..index import Func as _Func
+    from ..view import view as _view
+    vnode = _view(index, f0)[0]
+    f = _Func(f0.name, f0.module, vnode, f0.cls)
     w = walk_function(f.node)
     ps = [a.arg for a in f.node.args.args]
     pos, area = ps[0], ps[1]
@@ -466,8 +509,15 @@ def run(index: RepoIndex, rep) -> None:
     n_sites = 0
     for g in index.all_functions(PKG):
         for n in ast.walk(g.node):
-            if isinstance(n, ast.Call) and src(n.func) == 'compute_ray':
+            if isinstance(n, ast.Call) and src(n.func) in TRACERS and \
+                    not (g.name == 'compute_ray' and src(n.func) != 'compute_ray'):
                 n_sites += 1
+                if not TRACERS[src(n.func)]:
+                    rep.check(_origin_checked(index, g, n), 'C19.R1', g.relpath, g.short,
+                              n.lineno, src(n)[:100],
+                              f'{g.short} traces rays with {src(n.func)}, which does not '
+                              f'validate the origin, without rejecting an origin outside the '
+                              f'area first', f'{g.short}: origin validated before tracing')
                 kw = {k.arg: k.value for k in n.keywords}
                 st = kw.get('step_size')
                 okv = isinstance(st, ast.Constant) and isinstance(st.value, (int, float)) \
@@ -487,7 +537,7 @@ def run(index: RepoIndex, rep) -> None:
     def reaches(fn, seen=()) -> bool:
         for n in ast.walk(fn.node):
             if isinstance(n, ast.Call) and isinstance(n.func, ast.Name):
-                if n.func.id == 'compute_ray':
+                if n.func.id in TRACERS:
                     return True
                 h = rtm.functions.get(n.func.id)
                 if h is not None and h.name not in seen and reaches(h, seen + (h.name,)):
